@@ -6,7 +6,7 @@ import concurrent.futures
 import json
 import random
 import vf
-from slices import actor, root, sysrun
+from slices import actor, flow, root, sysrun
 
 
 def sys_campaign(ck, prop, n, families=None, gated_p=0.6, fail_p=0.25, workers=6, seed_base=0, hang_s=None, stop_on_first=False,
@@ -78,7 +78,8 @@ def two_invocations(ck, prop, n_quick=10, fail_p=0.7):
 
 
 def check_engine(ck, prop, projection, what, n_actor_quick=400, n_sys_quick=24, families=None, fail_p=0.25, gated_p=0.6,
-                 extra=None, clean_p=0.0, n_root_quick=0, root_projection=None, root_what='run status and relayed outputs'):
+                 extra=None, clean_p=0.0, n_root_quick=0, root_projection=None, root_what='run status and relayed outputs',
+                 n_flow_quick=0):
     quick = ck.tier == 'quick'
     n_actor = n_actor_quick if quick else n_actor_quick * 12
     n_sys = n_sys_quick if quick else n_sys_quick * 12
@@ -92,13 +93,17 @@ def check_engine(ck, prop, projection, what, n_actor_quick=400, n_sys_quick=24, 
     rdiffs = []
     if n_root_quick:
         rdiffs = root.run(ck, n_root_quick if quick else n_root_quick * 12, project=root_projection, what=root_what)
+    # 1c. message-flow conformance of whole runs (real engine, every actor replayed on what was relayed to it)
+    fdiffs = []
+    if n_flow_quick:
+        fdiffs = flow.run(ck, n_flow_quick if quick else n_flow_quick * 10)
     # 2. system-level scenarios
     found = sys_campaign(ck, prop, n_sys, families=families, fail_p=fail_p, gated_p=gated_p, clean_p=clean_p)
     if extra:
         found += extra(ck)
     report_sys(ck, prop, found)
     # 3. correspondence broken: search for a failing input, else report the broken correspondence
-    if (diffs or rdiffs) and not found:
+    if (diffs or rdiffs or fdiffs) and not found:
         wider = sys_campaign(ck, prop, 60 if quick else 300, families=families, fail_p=fail_p, gated_p=gated_p, seed_base=1,
                              clean_p=clean_p)
         if wider:
@@ -106,10 +111,15 @@ def check_engine(ck, prop, projection, what, n_actor_quick=400, n_sys_quick=24, 
             ck.violation({'kind': 'system-run (found while searching around a broken actor correspondence)', 'what': texts,
                           'targets': obs['targets'], 'roots': obs['roots'], 'failing_scripts': obs['fail'],
                           'observed_trace': obs['trace'], 'outcome': obs['outcome'], 'exit_code': obs['exit_code'],
-                          'model_vs_code_difference': (diffs or rdiffs)[0]}, found_input=True)
+                          'model_vs_code_difference': (diffs or rdiffs or fdiffs)[0]}, found_input=True)
         elif diffs:
             ck.violation({'kind': 'correspondence', 'correspondence': 'Actor.actor_step vs the real target actor (projection: %s)' % what,
                           'difference': diffs[0], 'n_differences': len(diffs),
+                          'searched': 'system-level scenarios found no violation of the property'}, found_input=False)
+        elif fdiffs:
+            ck.violation({'kind': 'correspondence',
+                          'correspondence': 'message flow of whole runs of the real engine vs Actor.actor_step replayed per actor',
+                          'difference': fdiffs[0], 'n_differences': len(fdiffs),
                           'searched': 'system-level scenarios found no violation of the property'}, found_input=False)
         else:
             ck.violation({'kind': 'correspondence',
@@ -117,4 +127,4 @@ def check_engine(ck, prop, projection, what, n_actor_quick=400, n_sys_quick=24, 
                                             '(projection: %s)' % root_what,
                           'difference': rdiffs[0], 'n_differences': len(rdiffs),
                           'searched': 'system-level scenarios found no violation of the property'}, found_input=False)
-    return diffs + rdiffs, found
+    return diffs + rdiffs + fdiffs, found
